@@ -1,7 +1,7 @@
 #!/bin/sh
 # runs inside a `vp run --with-repo` snapshot: applies every seeded change that still applies to the repo
-# snapshot, runs the quick check of its property (and of the extra properties listed in meta.json
-# "also_detected_by"), reverts; prints one line per seed.
+# snapshot, runs the quick check of its property (or of the property named by meta.json
+# "reported_by_check"), reverts; prints one line per seed.
 sed -i "s|path = \"/repo\"|path = \"$VP_RUN_REPO\"|" harness/Cargo.toml
 export VERIF_REPO=$VP_RUN_REPO
 ./setup.sh > setup.log 2>&1 || { echo SETUP-FAILED; tail -20 setup.log; exit 1; }
@@ -9,7 +9,10 @@ for d in seeded/*/; do
   s=$(basename $d); p=${s%-*}
   git -C $VP_RUN_REPO apply --check $PWD/$d/patch.diff 2>/dev/null || { echo "$s does-not-apply"; continue; }
   git -C $VP_RUN_REPO apply $PWD/$d/patch.diff
-  ./check $p --tier quick > out.log 2>&1; rc=$?
+  # the check that is expected to report the change: the seed's own property unless meta.json names another
+  # property anchoring the same file ("reported_by_check")
+  q=$(python3 -c "import json,sys; print(json.load(open('$d/meta.json')).get('reported_by_check','$p'))" 2>/dev/null || echo $p)
+  ./check $q --tier quick > out.log 2>&1; rc=$?
   git -C $VP_RUN_REPO checkout -- .
   echo "$s rc=$rc $(grep -c '^VIOLATION' out.log) $(grep '^VIOLATION' out.log | head -1 | grep -c no-failing-input-found)nf | $(tail -1 out.log | cut -c1-160)"
 done
